@@ -522,8 +522,11 @@ func (m *Memberlist) UpdateNode(timeout time.Duration) error {
 
 	// Get the existing node
 	m.nodeLock.RLock()
-	state := m.nodeMap[m.config.Name]
+	state, ok := m.nodeMap[m.config.Name]
 	m.nodeLock.RUnlock()
+	if !ok {
+		return fmt.Errorf("local node is not in the node map, nothing to update")
+	}
 
 	// Format a new alive message
 	a := alive{
